@@ -106,28 +106,31 @@ def generate(weaken, variant, maxcrash, maxview, cap=180, invs=None):
 
 # Directed schedules (MC_Guided.tla): key -> (weaken, script operator, validators, weights operator, weights, maxview, invariant)
 GUIDED = {
-    "high_vote_keeps_older_same_number@agreement_u6": ("high_vote_keeps_older_same_number", "StaleHighVoteU6", 6, "W111111", [1] * 6, 4, "Agreement"),
+    "high_vote_keeps_older_same_number@agreement_u6": ("high_vote_keeps_older_same_number", "StaleHighVoteU6", 6, "W111111", [1] * 6, 4, "Agreement", [], "Alternating"),
+    "high_vote_tally_by_view@agreement_u6": ("high_vote_tally_by_view", "SplitTallyU6", 6, "W111111", [1] * 6, 4, "Agreement", [6], "AnyPayload"),
 }
 
 
 def generate_guided(key):
-    weaken, script, n, wop, weights, maxview, inv = GUIDED[key]
+    weaken, script, n, wop, weights, maxview, inv, faulty, hp = GUIDED[key]
     d = os.path.join(common.OUT, "attacks")
     os.makedirs(d, exist_ok=True)
     vs = "{" + ",".join(str(i) for i in range(1, n + 1)) + "}"
+    cs = "{" + ",".join(str(i) for i in range(1, n + 1) if i not in faulty) + "}"
+    fs = "{" + ",".join(str(i) for i in faulty) + "}"
 
     def cfg(w):
         return f'''CONSTANTS
   Validators = {vs}
   Weight <- {wop}
-  Correct = {vs}
-  Faulty = {{}}
+  Correct = {cs}
+  Faulty = {fs}
   Payloads = {{"p","q"}}
   BadPayloads = {{}}
   Weaken = "{w}"
   MaxView = {maxview}
   ViewCap = {maxview}
-  HonestPayloads <- Alternating
+  HonestPayloads <- {hp}
   EnableLeaderNV = FALSE
   MaxCrash = 0
   MaxBlocks = 2
@@ -159,7 +162,7 @@ CHECK_DEADLOCK FALSE
         return None
     ce = json.load(open(dump))["counterexample"]["state"]
     acts = [s[1]["lastAct"] for s in ce if s[1]["lastAct"]["a"] != "init"]
-    return {"weaken": weaken, "violates": r.violated, "variant": script, "config": {"weights": weights, "faulty": []},
+    return {"weaken": weaken, "violates": r.violated, "variant": script, "config": {"weights": weights, "faulty": faulty},
             "init": "view1", "acts": acts, "suffix": True, "spec_states_to_find": r.distinct,
             "note": "DIRECTED schedule (MC_Guided.tla): the script fixes which action happens at which replica, TLC checks it is a behaviour of the WEAKENED "
                     "specification violating the invariant (and that the faithful specification survives the same script); on the faithful code it must not violate anything"}
